@@ -108,7 +108,8 @@ def gen_guards(ctx):
 def pdesc(c):
     ops = []
     for i in range(2, len(c) - 1, 2):
-        ops.append({1: "pool_malloc(%d)" % c[i + 1], 2: "pool_free(#%d)" % c[i + 1], 5: "pool_reset"}.get(c[i], "?"))
+        ops.append({1: "pool_malloc(%d)" % c[i + 1], 2: "pool_free(#%d)" % c[i + 1], 5: "pool_reset",
+                    6: "[other thread: 5 x pool_malloc(%d), exits]" % c[i + 1]}.get(c[i], "?"))
     return "%s pool, raw allocation #%d refused once: %s" % ("fixed" if c[0] else "growable", c[1], "; ".join(ops))
 
 
@@ -157,8 +158,10 @@ def run(ctx):
             r = rng.random()
             if r < 0.7 or nal == 0:
                 ops += [1, rng.choice([8, 100, 5000, 8128, 8129, 60000, 1 << 20, 3 << 20, 9 << 20])]; nal += 1
-            elif r < 0.92:
+            elif r < 0.88:
                 ops += [2, rng.randrange(nal)]
+            elif r < 0.94:
+                ops += [6, rng.choice([8, 64, 100, 1024, 5000])]
             else:
                 ops += [5, 0]
         fixed = 1 if rng.random() < 0.25 else 0
@@ -167,9 +170,15 @@ def run(ctx):
         cases.append([fixed, -1] + ops)
         for k in range(0, 8):
             cases.append([fixed, k] + ops)
+    # directed: slabs orphaned by a finished thread, pool_reset, reuse of the same size class, one refused raw request
+    for sz in (8, 64, 1024, 5000):
+        for sz2 in (sz, 100, 8128, 60000):
+            base = [6, sz, 5, 0] + [1, sz] * 6 + [1, sz2] * 4 + [1, 3 << 20] + [1, sz] * 40
+            for k in (-1, 1, 2, 3, 4):
+                cases.append([0, k] + base)
     ctx.rules.append("pool fault enumeration: random pool workloads (growable and fixed, with pool_reset), every index k=0..7 of the raw-allocation trace refused once, "
                      "a second pool alive; predicate = live blocks intact, blocks inside own raw memory, pool_identify, every raw region returned exactly once, fixed pool single raw call, recovery after failure")
-    oracle_tie(ctx, "pool-faults", exe, ["pool"], cases, pool_oracle, describe=pdesc, bucket=lambda c: "pool fixed=%d failk=%d" % (c[0], c[1]), timeout=1200)
+    oracle_tie(ctx, "pool-faults", exe, ["pool"], cases, pool_oracle, describe=pdesc, bucket=lambda c: "pool fixed=%d failk=%d" % (c[0], c[1]), timeout=300)
     # --- real threads: foreign frees, thread exit with live blocks
     bad = 0
     nmt = ctx.scale(6, 80)
